@@ -1,4 +1,5 @@
-/* C12: bt_en_decode / bt_en_free / bt_dict_find (src/utils/bt_encode.c) on hostile bytes.
+/* NOT REGISTERED (does not close, see contracts/bt_encode.h).
+ * C12: bt_en_decode / bt_en_free / bt_dict_find (src/utils/bt_encode.c) on hostile bytes.
  * Bounded plain harness: buf of symbolic size <= VF_BT_MAX in an exact-size object, symbolic
  * content (-DVF_BT_FLAT: no 'l'/'d' byte behind the first one, i.e. nesting depth <= 1);
  * recursion and loops fully unwound (unwinding assertions = termination within the bound);
